@@ -37,16 +37,24 @@ pub fn classify_stream(b: &[u8]) -> Verdict {
         0x11 => true,
         _ => return Verdict::Malformed("unknown type"),
     };
-    let declared = b[1] as usize | (b[2] as usize) << 8 | (b[3] as usize) << 16;
+    let mut declared = b[1] as usize | (b[2] as usize) << 8 | (b[3] as usize) << 16;
+    let mut p = 4usize;
     if lz11 && declared == 0 {
-        // extended (32-bit) length header; only the empty payload is judged
-        if b.len() == 8 && b[4..8] == [0, 0, 0, 0] {
-            return Verdict::Conforming(Vec::new());
+        // extended header: a 32-bit length follows. A conforming encoder uses it for the
+        // empty payload and for payloads of 16 MiB and more; anything else is not judged
+        if b.len() < 8 {
+            return Verdict::Other("LZ11 zero length without the extended field");
         }
-        return Verdict::Other("LZ11 extended-length header");
+        declared = u32::from_le_bytes([b[4], b[5], b[6], b[7]]) as usize;
+        p = 8;
+        if declared != 0 && declared < (1 << 24) {
+            return Verdict::Other("LZ11 extended-length header for a payload that fits 24 bits");
+        }
+        if declared > (1 << 26) {
+            return Verdict::Other("LZ11 extended-length header beyond 64 MiB");
+        }
     }
     let mut out: Vec<u8> = Vec::with_capacity(declared.min(1 << 20));
-    let mut p = 4usize;
     while out.len() < declared {
         let flags = match b.get(p) {
             Some(f) => *f,
@@ -206,7 +214,13 @@ pub fn encode_tokens(tokens: &[Token], lz11: bool, pad_bits: u8) -> Vec<u8> {
             Token::Ref(l, _) => *l,
         })
         .sum();
-    let mut out = vec![if lz11 { 0x11 } else { 0x10 }, (data_len & 0xFF) as u8, ((data_len >> 8) & 0xFF) as u8, ((data_len >> 16) & 0xFF) as u8];
+    let mut out = if lz11 && data_len >= (1 << 24) {
+        let mut h = vec![0x11, 0, 0, 0];
+        h.extend_from_slice(&(data_len as u32).to_le_bytes());
+        h
+    } else {
+        vec![if lz11 { 0x11 } else { 0x10 }, (data_len & 0xFF) as u8, ((data_len >> 8) & 0xFF) as u8, ((data_len >> 16) & 0xFF) as u8]
+    };
     let mut i = 0;
     while i < tokens.len() {
         let group = &tokens[i..(i + 8).min(tokens.len())];
